@@ -552,6 +552,59 @@ fn has_lit(p: &Pat) -> bool {
     }
 }
 
+/// (type, suffix, largest value, to_string function)
+const INT_TYPES: [(&str, &str, u128, &str); 8] = [
+    ("int8", "i8", 127, "int8_to_string"),
+    ("int16", "i16", 32767, "int16_to_string"),
+    ("int32", "i32", 2147483647, "int32_to_string"),
+    ("int64", "i64", 9223372036854775807, "int64_to_string"),
+    ("uint8", "u8", 255, "uint8_to_string"),
+    ("uint16", "u16", 65535, "uint16_to_string"),
+    ("uint32", "u32", 4294967295, "uint32_to_string"),
+    ("uint64", "u64", 18446744073709551615, "uint64_to_string"),
+];
+
+/// where the matched integer sits: (name, scrutinee type with § for the integer type, pattern with § for the
+/// literal, value with § for the integer)
+const LITERAL_PLACES: [(&str, &str, &str, &str); 5] = [
+    ("scrutinee", "§", "§", "§"),
+    ("tuple-component", "(bool, §)", "(true, §)", "(true, §)"),
+    ("enum-payload", "Wrap", "Wrap::Held(§)", "Wrap::Held(§)"),
+    ("struct-field", "Rec", "Rec { n: § }", "Rec { n: § }"),
+    ("nested-tuple-in-enum", "Deep", "Deep::In((§, true))", "Deep::In((§, true))"),
+];
+
+/// the literal patterns at the edges of every integer type, written with and without their suffix:
+/// each value selects its own arm, also when an arm for 0 or for a neighbour stands below it
+fn run_literal_extremes(t: usize, place: usize, case: &Value, ctx: &mut Ctx, rep: &mut Report) {
+    let (ty, suffix, max, _) = INT_TYPES[t];
+    let (pname, sty, pat, val) = LITERAL_PLACES[place];
+    let half = (max + 1) / 2; // 2^(bits-1) for unsigned types, 2^(bits-2) for signed ones
+    let values: Vec<u128> = vec![0, 1, half - 1, half, half + 1, max - 1, max];
+    let mut text = format!("enum Wrap {{ Held({ty}), Empty }}\nstruct Rec {{ n: {ty} }}\nenum Deep {{ In(({ty}, bool)), Out }}\n", ty = ty);
+    let mut expected = String::new();
+    let mut calls = String::new();
+    for (si, spelled) in ["unsuffixed", "suffixed"].iter().enumerate() {
+        let lit = |v: u128| if *spelled == "suffixed" { format!("{}{}", v, suffix) } else { v.to_string() };
+        // arms from the largest value down, the arm for 0 last but one
+        let mut arms = String::new();
+        for v in values.iter().rev() {
+            arms.push_str(&format!("        {} => \"is {}\",\n", pat.replace('§', &lit(*v)), v));
+        }
+        arms.push_str("        _ => \"other\",\n");
+        text.push_str(&format!("fn classify{}(x: {}) -> string {{\n    match x {{\n{}    }}\n}}\n", si, sty.replace('§', ty), arms));
+        for v in values.iter().chain([2u128, max - 2].iter()) {
+            calls.push_str(&format!("    string_println(classify{}({}));\n", si, val.replace('§', &format!("{}{}", v, suffix))));
+            expected.push_str(&if values.contains(v) { format!("is {}\n", v) } else { "other\n".to_string() });
+        }
+    }
+    text.push_str(&format!("fn main() {{\n{}}}\n", calls));
+    let site = format!("literal-extremes;type={};place={}", ty, pname);
+    rep.nontrivial_key = Some(text.clone());
+    rep.outcome = Some(site.clone());
+    expect_text_program(ctx, rep, "patterns", case, &site, &text, &expected, &["C06", "C01"], &["C06", "C02"], &["C06"]);
+}
+
 pub struct Patterns;
 
 fn depth_for(ty: &str) -> u32 {
@@ -682,6 +735,11 @@ impl Family for Patterns {
             v.push(json!({"lo": lo, "hi": (lo + 50).min(n)}));
             lo += 50;
         }
+        for t in 0..INT_TYPES.len() {
+            for place in 0..LITERAL_PLACES.len() {
+                v.push(json!({"literal-extremes": t, "place": place}));
+            }
+        }
         Box::new(v.into_iter())
     }
     fn case_timeout(&self, _tier: Tier) -> u64 {
@@ -689,6 +747,10 @@ impl Family for Patterns {
     }
     fn run(&self, case: &Value, ctx: &mut Ctx) -> Report {
         let mut rep = Report::default();
+        if let Some(t) = case["literal-extremes"].as_u64() {
+            run_literal_extremes(t as usize, case["place"].as_u64().unwrap() as usize, case, ctx, &mut rep);
+            return rep;
+        }
         let all = specs(ctx.tier);
         let (lo, hi) = (case["lo"].as_u64().unwrap() as usize, case["hi"].as_u64().unwrap() as usize);
         let mut count = 0u64;
